@@ -17,7 +17,10 @@ ULPS = 64  # of the floating type involved: a dozen elementary operations and tw
 
 
 def functions():
-    from bluebonnet.fluids import Fluid, oil, water  # noqa: PLC0415
+    from bluebonnet.fluids import Fluid, gas, oil, water  # noqa: PLC0415
+
+    def pc(o):  # pseudocritical point of the oil's associated gas
+        return gas.pseudocritical_point_Sutton(float(o[2]), gas.make_nonhydrocarbon_properties(0.01, 0.0, 0.02), "wet gas")
 
     def mk_oil(f):
         return lambda o, p: f(o[0], p, o[1], o[2], o[3])
@@ -38,7 +41,51 @@ def functions():
         "Fluid.water_FVF": (lambda o, p: fl(o).water_FVF(p), lambda o, p: water.b_water_McCain(o[0], p)),
         "Fluid.water_viscosity": (lambda o, p: fl(o).water_viscosity(p),
                                   lambda o, p: water.viscosity_water_McCain(o[0], p, 7.0)),
+        "Fluid.gas_FVF": (lambda o, p: fl(o).gas_FVF(p, *pc(o)), lambda o, p: gas.b_factor_DAK(o[0], p, *pc(o))),
+        "Fluid.gas_viscosity": (lambda o, p: fl(o).gas_viscosity(p, *pc(o)),
+                                lambda o, p: gas.viscosity_Sutton(o[0], p, *pc(o), o[2])),
     }
+
+
+NO_2D = ("oil_compressibility_undersat_Spivey", "Fluid.gas_FVF", "Fluid.gas_viscosity")  # 1-D by construction
+
+
+def eval_long(case):
+    """Long, unsorted arrays (64 and 1000 elements) over [1 psia, 2.5 p_b], containing p_b itself, 1, 5 and 14.7 psia:
+    paths that depend on the array length, and the low end of the pressure range."""
+    from ..common import LCG  # noqa: PLC0415
+
+    fname, o, dtype = case["fn"], tuple(case["oil"]), case["dtype"]
+    f_arr, f_sca = functions()[fname]
+    _, pb = alphabet(o, "f8", 0.0)
+    ftype = np.float32 if dtype == "f4" else np.float64
+    eps = np.finfo(ftype).eps
+    g = LCG(case["n"] + 3)
+    hi = min(2.5 * pb, 20000.0)
+    vals = [1.0, 5.0, 14.7, pb, hi] + [1.0 + (hi - 1.0) * g.next() for _ in range(case["n"] - 5)]
+    arr = np.array(vals, dtype=dtype)
+    keep = arr.copy()
+    viol = []
+    try:
+        out = np.asarray(f_arr(o, arr))
+    except Exception as e:  # noqa: BLE001
+        return {"violations": [V("array/raises", f"{fname} on a {dtype} array of {case['n']} pressures raises "
+                                 f"{type(e).__name__}: {e}", case=case)], "evals": 1, "splits": 0, "outcome": "long"}
+    if not np.array_equal(arr, keep):
+        viol.append(V("array/input-modified", f"{fname} modified its input array", case=case))
+    if out.shape != arr.shape or out.dtype.kind != "f":
+        viol.append(V("array/shape", f"{fname}: result shape {out.shape}, dtype {out.dtype} for {case['n']} {dtype} pressures",
+                      case=case))
+        return {"violations": viol, "evals": 1, "splits": 0, "outcome": "long"}
+    with np.errstate(all="ignore"):
+        ref = np.array([float(f_sca(o, float(x))) for x in keep])
+    bad = ~((np.abs(out - ref) <= ULPS * eps * np.abs(ref)) | (np.isnan(out) & np.isnan(ref)))
+    if bad.any():
+        k = int(np.flatnonzero(bad)[0])
+        viol.append(V("array/element", f"{fname}({dtype}, {case['n']} unsorted pressures)[{k}] at p={float(keep[k])!r} "
+                      f"(p_b={pb:.9g}) = {float(out[k])!r}, scalar call gives {float(ref[k])!r} ({int(bad.sum())} elements differ)",
+                      case=case, observed=float(out[k]), expected=float(ref[k])))
+    return {"violations": viol, "evals": case["n"], "splits": 0, "outcome": "long"}
 
 
 def alphabet(o, dtype, off):
@@ -124,7 +171,7 @@ def evaluate(case):
         if len(viol) > 3:
             break
     # 2-D arrays (C-ordered, Fortran-ordered, transposed view): same element-wise law, same shape
-    if layout == "contiguous" and dtype == "f8" and fname != "oil_compressibility_undersat_Spivey" and len(viol) < 2:
+    if layout == "contiguous" and dtype == "f8" and fname not in NO_2D and len(viol) < 2:
         for combo in itertools.product(vals, repeat=4):
             for lay2 in ("C", "F", "T"):
                 n_eval += 1
@@ -171,6 +218,37 @@ def eval_history(case):
                               f"same length, returns {out.tolist()}; its own scalar calls give {ref.tolist()}",
                               case=dict(case, fn=fname, oil=list(o))))
                 break
+    # ONE Fluid object used the way a simulation loop uses it: the same pressure array updated in place between
+    # calls, then another array of the same length; earlier results must stay what they were
+    from bluebonnet.fluids import Fluid, gas  # noqa: PLC0415
+
+    for o in [tuple(x) for x in case["oils"]]:
+        fluid = Fluid(o[0], o[1], o[2], o[3], salinity=7.0)
+        _, pb = alphabet(o, "f8", 0.0)
+        pcp = gas.pseudocritical_point_Sutton(float(o[2]), gas.make_nonhydrocarbon_properties(0.01, 0.0, 0.02), "wet gas")
+        for fname in ("Fluid.oil_FVF", "Fluid.oil_viscosity", "Fluid.water_FVF", "Fluid.water_viscosity", "Fluid.gas_FVF",
+                      "Fluid.gas_viscosity"):
+            meth = getattr(fluid, fname.split(".")[1])
+            extra = pcp if "gas" in fname else ()
+            f_sca = fns[fname][1]
+            arr = np.array([1.6 * pb, 1.1 * pb, 0.7 * pb][: case["n"]])
+            r1 = np.array(meth(arr, *extra), dtype=float)
+            r1_keep = r1.copy()
+            arr -= 0.3 * pb  # in place: the same array object, other pressures
+            r2 = np.asarray(meth(arr, *extra), dtype=float)
+            other = np.array([0.9 * pb, 2.0 * pb, 1.3 * pb][: case["n"]])
+            r3 = np.asarray(meth(other, *extra), dtype=float)
+            n += 3
+            for got, at in ((r2, arr), (r3, other)):
+                ref = np.array([float(f_sca(o, float(x))) for x in at])
+                if not np.all(np.abs(got - ref) <= ULPS * np.finfo(float).eps * np.abs(ref)):
+                    viol.append(V("array/same-object-history", f"{fname} on one Fluid object: after the pressure array was "
+                                  f"updated in place (or replaced by one of equal length) the call returns {got.tolist()}; "
+                                  f"scalar calls give {ref.tolist()}", case=dict(case, fn=fname, oil=list(o))))
+                    break
+            if not np.array_equal(r1, r1_keep):
+                viol.append(V("array/result-overwritten", f"{fname}: a result returned earlier was overwritten by a later call",
+                              case=dict(case, fn=fname, oil=list(o))))
     return {"violations": viol[:2], "evals": n, "splits": 0, "outcome": "history"}
 
 
@@ -182,6 +260,8 @@ def cases(tier, seed):
 
 
 def dispatch(case):
+    if case.get("kind") == "long":
+        return eval_long(case)
     return eval_history(case) if case.get("kind") == "history" else evaluate(case)
 
 
@@ -189,6 +269,8 @@ def run(ctx):
     cs = cases(ctx.tier, ctx.seed)
     cs += [{"kind": "history", "oils": [list(o) for o in OILS[:3]], "n": n} for n in (3, 5)]
     cs += [{"kind": "history", "oils": [list(o) for o in OILS[:3]][::-1], "n": 3}]
+    cs += [{"kind": "long", "fn": f, "oil": list(o), "dtype": d, "n": n}
+           for f, o, d, n in itertools.product(list(functions().keys()), OILS[:3], ["f8", "f4", "i8"], [64, 1000])]
     res = ctx.pmap(dispatch, cs, chunksize=1)
     cov = {
         "evaluations": sum(r.get("evals", 0) for r in res),
